@@ -94,7 +94,7 @@ class C10(CheckBase):
         else:
             cmd = [rng.choice(['extract-files', 'extract-unused']), 'out']
             globals_ = ['--drive', str(drv)]
-        fault = rng.weighted([(7, 'none'), (2, 'rchunk'), (4, 'trunc'), (4, 'flip'), (2, 'backref'), (1, 'notgzip'), (1, 'rfail'),
+        fault = rng.weighted([(7, 'none'), (2, 'rchunk'), (4, 'trunc'), (4, 'flip'), (2, 'backref'), (2, 'trunc512'), (1, 'notgzip'), (1, 'rfail'),
                               (1, 'tmp_createfail'), (3, 'tmp_wfail'), (1, 'tmp_rfail')]
                              + ([(2, 'enum_trunc'), (2, 'enum_flip')] if small else []))
         case = {'image': image, 'gz': self.gen_gz_params(rng), 'cmd': cmd, 'globals': globals_, 'fault': fault,
@@ -211,6 +211,23 @@ class C10(CheckBase):
                 out.skip('backref-stream-happens-to-be-valid')
                 return out
             self.medium(ctx, out, case, dict(atom, abs=cut), ref, X, D, gzname, cont, 'backref', cut)
+            return out
+        if fault == 'trunc512':
+            # the stream cut at every multiple of the tool's 512-byte read size (at most 200 of them, evenly spread): the
+            # cut then coincides with the end of an input chunk, the one place where "no more input" and "end of
+            # file" look alike
+            ks = list(range(512, len(G), 512))
+            if len(ks) > 200:
+                st = len(ks) / 200.0
+                ks = [ks[int(i * st)] for i in range(200)]
+            out.probe('enumerated-512-byte-truncation-points', len(ks))
+            bad = 0
+            for k in ks:
+                if self.medium(ctx, out, case, dict(atom, fault='trunc', abs=k), ref, X, G[:k], gzname, cont, 'trunc', k) == 'abnormal':
+                    bad += 1
+                if bad >= 3 or ctx.expired():
+                    out.probe('enumeration-cut-short')
+                    break
             return out
         if fault in ('trunc', 'flip', 'enum_trunc', 'enum_flip', 'notgzip'):
             if fault == 'notgzip':
